@@ -49,7 +49,7 @@ Judge ==
           /\ PrintT(ToJson([judged |-> o.id, e |-> expected, f |-> failed]))
           /\ IF o.accept <=> expected THEN TRUE
              ELSE /\ PrintT(ToJson([nonconforming |-> o.id, accept |-> o.accept, expected |-> expected, failed |-> failed,
-                                     tokens |-> IF o.accept THEN WhyInvalid(S, o, full, failed) ELSE {}]))
+                                     tokens |-> IF o.accept THEN WhyInvalid(S, o, full, failed) ELSE LocationDefaultFeatures(S, full)]))
                   /\ TLCSet(2, TLCGet(2) + 1)
 
 \* the same relation as a plain invariant (used by the replay mode and the binding demonstration)
